@@ -450,19 +450,127 @@ def compare_outputs(expected, kind, got, single, scale, check_values=True, in_pr
     return []
 
 
+# ----------------------------------------------------------------------------- crash isolation for the runtimes
+# onnxruntime, onnx.reference and onnx's C++ shape inference run in ONE persistent child process per worker: a traced model that
+# makes one of them die (seen: SIGFPE inside onnx shape inference for SplitToSequence with split size 0) then costs one case
+# ("runtime_crashed", counted and sampled) instead of the whole shard.
+def _runtime_server(conn):
+    import warnings
+
+    warnings.filterwarnings("ignore")
+    np.seterr(all="ignore")
+    import onnx
+
+    while True:
+        try:
+            msg = conn.recv()
+        except (EOFError, OSError):
+            return
+        kind = msg[0]
+        try:
+            if kind == "ort":
+                out = execs.run_ort(msg[1], msg[2])
+            elif kind == "ref":
+                out = execs.run_ref(msg[1], msg[2])
+            elif kind == "strict":
+                try:
+                    onnx.shape_inference.infer_shapes(onnx.load_from_string(msg[1]), check_type=True, strict_mode=True)
+                    out = None
+                except Exception as e:  # noqa: BLE001
+                    out = f"{type(e).__name__}: {str(e)[:300]}"
+            elif kind == "stop":
+                return
+            else:
+                out = ("err", "unknown request")
+        except BaseException as e:  # noqa: BLE001
+            out = ("err", f"{type(e).__name__}: {str(e)[:300]}")
+        try:
+            conn.send(out)
+        except Exception as e:  # noqa: BLE001   unpicklable result
+            conn.send(("err", f"unserialisable runtime result: {type(e).__name__}"))
+
+
+class RuntimeCrash(Exception):
+    pass
+
+
+class Runtime:
+    TIMEOUT = 120
+
+    def __init__(self):
+        self.proc = None
+        self.conn = None
+        self.crashes = 0
+
+    def _start(self):
+        import multiprocessing as mp
+
+        ctx = mp.get_context("spawn")
+        parent, child = ctx.Pipe()
+        self.proc = ctx.Process(target=_runtime_server, args=(child,), daemon=True)
+        self.proc.start()
+        child.close()
+        self.conn = parent
+
+    def _call(self, *msg):
+        if self.proc is None or not self.proc.is_alive():
+            self._start()
+        try:
+            self.conn.send(msg)
+            if not self.conn.poll(self.TIMEOUT):
+                raise EOFError("timeout")
+            return self.conn.recv()
+        except (EOFError, OSError, BrokenPipeError) as e:
+            code = None
+            try:
+                self.proc.join(0.5)
+                code = self.proc.exitcode
+                if self.proc.is_alive():
+                    self.proc.kill()
+            except Exception:  # noqa: BLE001
+                pass
+            self.proc = None
+            self.crashes += 1
+            raise RuntimeCrash(f"runtime process died during '{msg[0]}' (exit code {code}; {e})") from None
+
+    def run_ort(self, model_bytes, feeds):
+        return self._call("ort", model_bytes, feeds)
+
+    def run_ref(self, model_bytes, feeds):
+        return self._call("ref", model_bytes, feeds)
+
+    def strict(self, model_bytes):
+        return self._call("strict", model_bytes)
+
+    def close(self):
+        try:
+            if self.proc is not None and self.proc.is_alive():
+                self.conn.send(("stop",))
+                self.proc.join(1)
+                if self.proc.is_alive():
+                    self.proc.kill()
+        except Exception:  # noqa: BLE001
+            pass
+        self.proc = None
+
+
+_RT = None
+
+
+def runtime():
+    global _RT
+    if _RT is None:
+        import atexit
+
+        _RT = Runtime()
+        atexit.register(_RT.close)
+    return _RT
+
+
 ORT_MISSING = ("NOT_IMPLEMENTED", "Could not find an implementation", "not implemented", "is not supported by")
 
 
-def strict_inference_error(model):
-    t = T()
-    try:
-        t.onnx.shape_inference.infer_shapes(model, check_type=True, strict_mode=True)
-        return None
-    except Exception as e:  # noqa: BLE001
-        return f"{type(e).__name__}: {str(e)[:300]}"
-
-
-def run_call(qname, args, kwargs, check_values=True):
+def run_call(qname, args, kwargs, check_values=True, tol_scale=1.0):
     """The oracle on one ATen call (already decoded).  Returns dict(status, verdicts=[(kind, detail)], info).
     status: ok | skip:<reason> | violation."""
     t = T()
@@ -515,16 +623,26 @@ def run_call(qname, args, kwargs, check_values=True):
             return {"status": "skip:declared_unsupported", "verdicts": [], "info": info}
         return {"status": "violation", "verdicts": [("raises_during_trace", f"{msg} @ {frame_in_torchlib(rc)}")], "info": info}
     info["nodes"] = len(model.graph.node)
-    # 5. execute
-    scale = _scale(args2, kwargs2, expected)
+    # 5. execute (in the crash-isolated runtime process)
+    try:
+        return _execute_and_compare(model, bound, expected, kind, single, args2, kwargs2, check_values, info, tol_scale)
+    except RuntimeCrash as e:
+        info["runtime_crashed"] = str(e)
+        return {"status": "skip:runtime_crashed", "verdicts": [], "info": info}
+
+
+def _execute_and_compare(model, bound, expected, kind, single, args2, kwargs2, check_values, info, tol_scale=1.0):
+    rt = runtime()
+    mb = model.SerializeToString()
+    scale = _scale(args2, kwargs2, expected) * tol_scale
     prec = coarsest_float(args2, kwargs2)
-    r = execs.run_ort(model, bound.feeds)
+    r = rt.run_ort(mb, bound.feeds)
     if r[0] != "ok":
         if any(m in r[1] for m in ORT_MISSING):
             info["ort_error"] = r[1]
             return {"status": "skip:ort_kernel_missing", "verdicts": [], "info": info}
-        bad = strict_inference_error(model)
-        ref = execs.run_ref(model, bound.feeds)
+        bad = rt.strict(mb)
+        ref = rt.run_ref(mb, bound.feeds)
         if bad is None and ref[0] == "ok":
             # onnxruntime cannot execute a model that strict ONNX type/shape inference accepts and the reference
             # evaluator runs: the reference evaluator alone decides
@@ -538,7 +656,7 @@ def run_call(qname, args, kwargs, check_values=True):
         return {"status": "violation", "verdicts": [("ort_cannot_run", detail)], "info": info}
     v = compare_outputs(expected, kind, r[1], single, scale, check_values, prec)
     if v and v[0][0] in ("values", "shape", "structure"):
-        ref = execs.run_ref(model, bound.feeds)
+        ref = rt.run_ref(mb, bound.feeds)
         if ref[0] == "ok" and not compare_outputs(expected, kind, ref[1], single, scale, check_values, prec):
             info["runtime_split"] = v[0][1]
             return {"status": "skip:runtime_split_ort_vs_reference", "verdicts": [], "info": info}
@@ -565,6 +683,8 @@ POOLS = {
     "special": [0.0, 1.0, -1.0, float("inf"), float("-inf"), float("nan"), 2.5, -0.0],
     "small": [0.0, 1.0, -1.0, 2.0, -2.0, 0.5, 3.0],
     "nz": [1.0, -1.0, 2.0, -2.0, 0.5, -0.5, 4.0, 0.25, 3.0, -3.0],
+    # pow(-0.0, negative non-integer): IEEE pow gives +inf, torch rewrites x**-0.5 to rsqrt and gives -inf -> keep -0.0 out of pow bases
+    "powbase": [0.0, 1.0, -1.0, 0.5, -0.5, 2.0, -2.0, 1.5, 2.5, 3.0, -3.0, 0.25, 7.0, 100.0, -100.0],
     "shift": [0.0, 1.0, 2.0, 3.0],
 }
 IPOOLS = {
@@ -600,27 +720,33 @@ def make_tensor(shape, dtype, pool, seed):
 
 
 class G:
-    def __init__(self, draw, allowed=None, stratum=None):
-        from hypothesis import strategies as st
+    """Choice helper.  Hypothesis draws ONE integer per case; every choice below is taken from numpy's Generator seeded with it, so a
+    case is a pure function of the drawn example and the choices are uniform (Hypothesis' own small-value bias made dtype / attribute
+    strata starve at quick budgets)."""
 
+    def __init__(self, seed, allowed=None, stratum=None):
+        self.rng = np.random.default_rng(seed)
         self.stratum = stratum  # the first dtype choice of a case is stratified (k-th entry of the op's dtype list), not drawn
-
-        self.st = st
-        self.draw = draw
         self.tags = []
+        self.tol_scale = 1.0  # multiplier of the absolute tolerance for ill-conditioned families (normalisations: rstd <= 1/sqrt(eps))
         self.allowed = allowed  # dtype names the function's annotation admits for its first tensor parameter (None: no filter)
 
     def pick(self, xs):
-        return self.draw(self.st.sampled_from(list(xs)))
+        xs = list(xs)
+        return xs[int(self.rng.integers(len(xs)))]
 
     def i(self, lo, hi):
-        return self.draw(self.st.integers(lo, hi))
+        return int(self.rng.integers(lo, hi + 1))
 
     def b(self):
-        return self.draw(self.st.booleans())
+        return bool(self.rng.integers(2))
 
     def chance(self, pct):
-        return self.draw(self.st.integers(0, 99)) < pct
+        return int(self.rng.integers(100)) < pct
+
+    def perm(self, xs):
+        xs = list(xs)
+        return [xs[int(k)] for k in self.rng.permutation(len(xs))]
 
     def tag(self, *ts):
         self.tags.extend(ts)
@@ -654,7 +780,7 @@ class G:
         """A list of distinct dims in mixed positive/negative form."""
         n = max(rank, 1)
         k = self.i(min_n, min(n, max_n if max_n is not None else n))
-        perm = self.draw(self.st.permutations(list(range(n))))[:k]
+        perm = self.perm(range(n))[:k]
         return [d - n if self.b() else d for d in perm]
 
     def bshape(self, shape):
@@ -768,13 +894,13 @@ def g_pow(g, p):
     if form == "TT":
         sa = g.shape()
         sb = g.pick([sa, g.bshape(sa), []])
-        base = g.tensor(sa, dt, "edge" if isf else "small")
+        base = g.tensor(sa, dt, "powbase" if isf else "small")
         ex = g.tensor(sb, dt, "small") if isf else g.tensor(sb, dt, "shift")
         if list(sb) != list(sa):
             g.tag("broadcast")
         return [base, ex], {}
     if form == "TS":
-        base = g.tensor(g.shape(), dt, "edge" if isf else "small")
+        base = g.tensor(g.shape(), dt, "powbase" if isf else "small")
         ex = g.pick([0, 1, 2, 3, 0.5, -1, 2.0, -0.5, 1.5, -2]) if isf else g.pick([0, 1, 2, 3, 2.0, 0.5])
         return [base, ex], {}
     ex = g.tensor(g.shape(), dt, "small" if isf else "shift")
@@ -784,7 +910,7 @@ def g_pow(g, p):
 
 def g_shift(g, p):
     form = p.get("form", "TT")
-    dt = g.dt("IU")
+    dt = g.dt(["int64", "int32", "int64", "int32", "uint8"])
     if form == "TT":
         sa = g.shape()
         sb = g.pick([sa, g.bshape(sa), []])
@@ -901,6 +1027,7 @@ def g_layer_norm(g, p):
     x = g.tensor(s, dt, "smooth")
     w, b = _affine(g, ns, dt), _affine(g, ns, dt)
     eps = g.pick([1e-05, 1e-05, 0.001, 0.1])
+    g.tol_scale = 1.0 / math.sqrt(eps)
     if p.get("native"):
         return [x, ns, w, b, eps], {}
     args = [x, ns, w, b, eps]
@@ -918,6 +1045,7 @@ def g_group_norm(g, p):
     x = g.tensor([n, c] + spatial, dt, "smooth")
     w, b = _affine(g, [c], dt), _affine(g, [c], dt)
     eps = g.pick([1e-05, 0.001, 0.1])
+    g.tol_scale = 1.0 / math.sqrt(eps)
     if p.get("native"):
         hxw = int(np.prod(spatial)) if spatial else 1
         return [x, w, b, n, c, hxw, groups, eps], {}
@@ -938,6 +1066,7 @@ def g_batch_norm(g, p):
     rv = g.tensor([c], dt, "pos")
     mom = g.pick([0.1, 0.0, 0.5])
     eps = g.pick([1e-05, 0.001, 0.1])
+    g.tol_scale = 1.0 / math.sqrt(eps)
     form = p["form"]
     if form == "no_training":
         return [x, w, b, rm, rv, mom, eps], {}
@@ -1031,7 +1160,7 @@ def _factor_shape(g, n, allow_minus1=True):
     fs.append(m)
     if g.b():
         fs.insert(g.i(0, len(fs)), 1)
-    fs = list(g.draw(g.st.permutations(fs)))
+    fs = g.perm(fs)
     if m == n and n == 1 and g.chance(30):
         fs = []
     if allow_minus1 and fs and g.chance(35):
@@ -1135,10 +1264,10 @@ def g_view(g, p):
         return [g.tensor(g.shape(max_rank=4), dt)], {}
     if form == "prims_transpose":
         s = g.shape()
-        return [g.tensor(s, dt), list(g.draw(g.st.permutations(list(range(len(s))))))], {}
+        return [g.tensor(s, dt), g.perm(range(len(s)))], {}
     if form == "broadcast_in_dim":
         s = g.shape(max_rank=3)
-        extra_pos = sorted(g.draw(g.st.lists(g.st.integers(0, len(s) + 1), max_size=2)))
+        extra_pos = sorted(g.i(0, len(s) + 1) for _ in range(g.i(0, 2)))
         tgt = list(s)
         for pos in extra_pos:
             tgt.insert(min(pos, len(tgt)), g.pick(DIMS))
@@ -1720,7 +1849,7 @@ _reg(_aten("acosh atan asinh cos cosh sin sinh tan tanh exp exp2 log log10 log2 
            "deg2rad rad2deg"), g_unary, dt="FI")
 _reg(_aten("special_erf special_erfc special_erfcx special_expm1 special_sinc frac silu mish selu hardsigmoid hardswish log_sigmoid relu6"), g_unary, dt="F")
 _reg(_aten("abs neg sign relu"), g_unary, dt="FIU")
-_reg(_aten("floor ceil round trunc"), g_unary, dt="FI")
+_reg(_aten("floor ceil round trunc"), g_unary, dt="F")
 _reg("prims::abs prims::neg prims::floor prims::ceil prims::round prims::acos prims::acosh prims::asin prims::asinh prims::atan prims::atanh prims::cos "
      "prims::cosh prims::erf prims::exp prims::log prims::sin prims::sinh prims::sqrt prims::tan prims::tanh", g_unary, dt="F")
 _reg(_aten("isfinite isinf isnan isneginf isposinf"), g_unary, dt="F", pool="special")
@@ -2018,16 +2147,15 @@ def cases(qname, stratum=None):
     gen, p = OPS[qname]
     allowed = first_tensor_allowed(qname)
 
-    @st.composite
-    def _s(draw):
-        g = G(draw, allowed, stratum)
+    def build(seed):
+        g = G([seed, stratum or 0], allowed, stratum)
         args, kwargs = gen(g, p)
         overload = get_overload(qname)
         args, kwargs = _omit_defaults(g, overload, list(args), dict(kwargs))
         return {"op": qname, "args": [enc(a) for a in args], "kwargs": {k: enc(v) for k, v in kwargs.items()}, "tags": list(g.tags),
-                "no_values": bool(p.get("no_values"))}
+                "no_values": bool(p.get("no_values")), "tol_scale": g.tol_scale}
 
-    return _s()
+    return st.integers(0, 2**62).map(build)
 
 
 def first_tensor_allowed(qname):
@@ -2083,3 +2211,478 @@ def case_size(case):
 
 def sha(x):
     return hashlib.sha1(repr(x).encode()).hexdigest()[:12]
+
+
+# ============================================================================= end-to-end tier: small modules through torch.onnx.export
+# A program is a list of JSON-able steps applied to a running tensor h (inputs x, y: float32, same shape).  `exact` steps keep
+# dyadic values exact, so discontinuous steps (floor, round, sign, comparisons, argmax, remainder) are only drawn while the running
+# value is still exact: a one-ulp kernel difference can then not be amplified into a different integer.
+
+def _mstep(step, h, x, y, W):
+    t = T()
+    torch = t.torch
+    Fn = torch.nn.functional
+    op = step["op"]
+    a = step.get("a")
+    b = step.get("b")
+    if op == "relu":
+        return torch.relu(h)
+    if op == "abs":
+        return torch.abs(h)
+    if op == "neg":
+        return torch.neg(h)
+    if op == "tanh":
+        return torch.tanh(h)
+    if op == "sigmoid":
+        return torch.sigmoid(h)
+    if op == "exp":
+        return torch.exp(torch.clamp(h, max=8.0))
+    if op == "erf":
+        return torch.erf(h)
+    if op == "gelu":
+        return Fn.gelu(h, approximate=a)
+    if op == "silu":
+        return Fn.silu(h)
+    if op == "sqrt":
+        return torch.sqrt(torch.abs(h) + 1.0)
+    if op == "log":
+        return torch.log(torch.abs(h) + 1.0)
+    if op == "rsqrt":
+        return torch.rsqrt(torch.abs(h) + 0.5)
+    if op == "reciprocal":
+        return torch.reciprocal(torch.abs(h) + 1.0)
+    if op == "leaky_relu":
+        return Fn.leaky_relu(h, a)
+    if op == "elu":
+        return Fn.elu(h, a)
+    if op == "softplus":
+        return Fn.softplus(h, beta=a)
+    if op == "hardtanh":
+        return Fn.hardtanh(h, a, b)
+    if op == "floor":
+        return torch.floor(h)
+    if op == "ceil":
+        return torch.ceil(h)
+    if op == "round":
+        return torch.round(h)
+    if op == "trunc":
+        return torch.trunc(h)
+    if op == "sign":
+        return torch.sign(h)
+    if op == "add_s":
+        return h + a
+    if op == "rsub_s":
+        return a - h
+    if op == "mul_s":
+        return h * a
+    if op == "div_s":
+        return h / a
+    if op == "pow2":
+        return h ** 2
+    if op == "div_mode_s":
+        return torch.div(h, a, rounding_mode=b)
+    if op == "remainder_s":
+        return torch.remainder(h, a)
+    if op == "fmod_s":
+        return torch.fmod(h, a)
+    if op == "clamp":
+        return torch.clamp(h, a, b)
+    if op == "clamp_min":
+        return torch.clamp_min(h, a)
+    if op == "add_t":
+        return torch.add(h, x, alpha=a)
+    if op == "sub_t":
+        return torch.sub(h, y, alpha=a)
+    if op == "mul_t":
+        return h * y
+    if op == "max_t":
+        return torch.maximum(h, x)
+    if op == "min_t":
+        return torch.minimum(h, y)
+    if op == "where_t":
+        return torch.where(h > a, h, y)
+    if op == "gt_float":
+        return (h > x).to(torch.float32)
+    if op == "le_s_float":
+        return (h <= a).to(torch.float32) + h
+    if op == "masked_fill":
+        return h.masked_fill(h > a, b)
+    if op == "atan2_t":
+        return torch.atan2(h, torch.abs(x) + 1.0)
+    if op == "div_mode_t":
+        return torch.div(h, torch.abs(y) + 1.0, rounding_mode=b)
+    if op == "sum":
+        return h.sum(a, keepdim=b)
+    if op == "mean":
+        return h.mean(a, keepdim=b)
+    if op == "amax":
+        return h.amax(a, keepdim=b)
+    if op == "amin":
+        return h.amin(a, keepdim=b)
+    if op == "prod":
+        return h.prod(a, keepdim=b)
+    if op == "max_dim":
+        return h.max(a, keepdim=b).values
+    if op == "argmax":
+        return h.argmax(a, keepdim=b).to(torch.float32)
+    if op == "cumsum":
+        return h.cumsum(a)
+    if op == "softmax":
+        return torch.softmax(h, a)
+    if op == "log_softmax":
+        return torch.log_softmax(h, a)
+    if op == "logsumexp":
+        return torch.logsumexp(h, a, keepdim=b)
+    if op == "layer_norm":
+        return Fn.layer_norm(h, h.shape[-1:])
+    if op == "var":
+        return h.var(a, keepdim=b, correction=step["c"])
+    if op == "flatten":
+        return h.flatten(a, b)
+    if op == "reshape_flat":
+        return h.reshape(-1)
+    if op == "view_2d":
+        return h.reshape(h.shape[0], -1)
+    if op == "unsqueeze":
+        return h.unsqueeze(a)
+    if op == "squeeze":
+        return h.squeeze()
+    if op == "squeeze_dim":
+        return h.squeeze(a)
+    if op == "transpose":
+        return h.transpose(a, b)
+    if op == "permute_rev":
+        return h.permute(*reversed(range(h.dim())))
+    if op == "slice":
+        return h.narrow(a, 0, b) if step.get("narrow") else h[(slice(None),) * (a % h.dim()) + (slice(step["s"], b, step["st"]),)]
+    if op == "select":
+        return h.select(a, b)
+    if op == "flip":
+        return h.flip(a)
+    if op == "roll":
+        return h.roll(b, a)
+    if op == "repeat":
+        return h.repeat(*a)
+    if op == "expand":
+        return h.unsqueeze(0).expand(a, *h.shape)
+    if op == "cat":
+        return torch.cat([h, h * 2], a)
+    if op == "stack":
+        return torch.stack([h, -h], a)
+    if op == "chunk":
+        return h.chunk(2, a)[b]
+    if op == "split":
+        return h.split(1, a)[b]
+    if op == "unbind":
+        return h.unbind(a)[b]
+    if op == "tril":
+        return torch.tril(h, a)
+    if op == "triu":
+        return torch.triu(h, a)
+    if op == "index_select":
+        return h.index_select(a, torch.tensor(b, dtype=torch.int64))
+    if op == "gather0":
+        return torch.gather(h, a, torch.zeros_like(h, dtype=torch.int64))
+    if op == "zeros_like":
+        return torch.zeros_like(h) + h
+    if op == "full_like":
+        return torch.full_like(h, a) * h
+    if op == "ones_like":
+        return torch.ones_like(h, dtype=torch.float64).to(torch.float32) - h
+    if op == "arange_add":
+        return h + torch.arange(h.shape[-1])
+    if op == "arange_f":
+        return h * torch.arange(0, h.shape[-1], 1, dtype=torch.float32)
+    if op == "matmul_t":
+        return h @ h.transpose(-1, -2)
+    if op == "linear":
+        return Fn.linear(h, W[: step["n"], : h.shape[-1]], W[: step["n"], 0] if a else None)
+    if op == "to_f64":
+        return h.to(torch.float64).to(torch.float32) * a
+    if op == "to_int":
+        return h.to(torch.int64).to(torch.float32)
+    raise AssertionError(op)
+
+
+_M_EXACT = {"relu", "abs", "neg", "add_s", "rsub_s", "mul_s", "pow2", "clamp", "clamp_min", "add_t", "sub_t", "mul_t", "max_t", "min_t", "where_t",
+            "gt_float", "le_s_float", "masked_fill", "sum", "amax", "amin", "max_dim", "argmax", "cumsum", "flatten", "reshape_flat", "view_2d",
+            "unsqueeze", "squeeze", "squeeze_dim", "transpose", "permute_rev", "slice", "select", "flip", "roll", "repeat", "expand", "cat", "stack",
+            "chunk", "split", "unbind", "tril", "triu", "index_select", "gather0", "zeros_like", "full_like", "ones_like", "arange_add", "arange_f",
+            "floor", "ceil", "round", "trunc", "sign", "div_mode_s", "remainder_s", "fmod_s", "hardtanh", "to_f64", "to_int", "leaky_relu_exact"}
+_M_DISCONT = {"floor", "ceil", "round", "trunc", "sign", "div_mode_s", "remainder_s", "fmod_s", "gt_float", "le_s_float", "where_t", "masked_fill",
+              "argmax", "to_int", "div_mode_t", "max_dim"}
+_DY = [0.5, 2.0, -1.0, 1.5, -0.5, 0.25, 3.0, 1.0]
+
+
+def _draw_step(g, h, exact, same_as_x):
+    r = h.dim()
+    names = ["relu", "abs", "neg", "tanh", "sigmoid", "exp", "erf", "gelu", "silu", "sqrt", "log", "rsqrt", "reciprocal", "leaky_relu", "elu",
+             "softplus", "hardtanh", "add_s", "rsub_s", "mul_s", "div_s", "pow2", "clamp", "clamp_min", "zeros_like", "full_like", "ones_like",
+             "to_f64", "reshape_flat", "unsqueeze", "expand"]
+    if exact:
+        names += ["floor", "ceil", "round", "trunc", "sign", "div_mode_s", "remainder_s", "fmod_s", "le_s_float", "masked_fill", "to_int"]
+    if same_as_x:
+        names += ["add_t", "sub_t", "mul_t", "max_t", "min_t", "atan2_t"]
+        if exact:
+            names += ["where_t", "gt_float", "div_mode_t"]
+    if r >= 1:
+        names += ["sum", "mean", "amax", "amin", "prod", "cumsum", "softmax", "log_softmax", "logsumexp", "layer_norm", "var", "flatten", "squeeze",
+                  "squeeze_dim", "slice", "select", "flip", "roll", "repeat", "cat", "stack", "chunk", "split", "unbind", "index_select", "gather0",
+                  "arange_add", "arange_f", "linear", "max_dim"]
+        if exact:
+            names += ["argmax"]
+    if r >= 2:
+        names += ["transpose", "permute_rev", "tril", "triu", "matmul_t", "view_2d"]
+    op = g.pick(names)
+    s = {"op": op}
+    d = g.dim(r) if r else 0
+    if op == "gelu":
+        s["a"] = g.pick(["none", "tanh"])
+    elif op in ("leaky_relu",):
+        s["a"] = g.pick([0.01, 0.2, 0.5])
+    elif op == "elu":
+        s["a"] = g.pick([1.0, 0.5, 2.0])
+    elif op == "softplus":
+        s["a"] = g.pick([1.0, 2.0, 0.5])
+    elif op == "hardtanh":
+        s["a"], s["b"] = g.pick([-1.0, -0.5, 0.0]), g.pick([1.0, 2.0, 0.5])
+    elif op in ("add_s", "rsub_s", "mul_s", "full_like", "to_f64"):
+        s["a"] = g.pick(_DY + [2, 3, -1])
+    elif op == "div_s":
+        s["a"] = g.pick([2.0, 4.0, 3.0, -0.5, 2])
+    elif op in ("div_mode_s", "div_mode_t"):
+        s["a"], s["b"] = g.pick([2.0, 0.5, -2.0, 4, -1.5]), g.pick(["floor", "trunc"])
+    elif op in ("remainder_s", "fmod_s"):
+        s["a"] = g.pick([2.0, 0.5, -2.0, 1.5, 3, -1.5])
+    elif op == "clamp":
+        s["a"], s["b"] = g.pick([-1.0, 0.0, -0.5, None]), g.pick([1.0, 0.5, 2.0])
+    elif op == "clamp_min":
+        s["a"] = g.pick([0.0, -1.0, 0.5])
+    elif op in ("add_t", "sub_t"):
+        s["a"] = g.pick([1, 2, 0.5, -1, 1.0])
+    elif op in ("where_t", "le_s_float"):
+        s["a"] = g.pick([0.0, 0.5, -1.0, 1])
+    elif op == "masked_fill":
+        s["a"], s["b"] = g.pick([0.0, 0.5, -1.0]), g.pick([1.5, 0.0, -2.0, 3])
+    elif op in ("sum", "mean", "amax", "amin", "logsumexp"):
+        s["a"], s["b"] = (g.dims(r, min_n=1) if g.b() else d), g.b()
+    elif op in ("prod", "max_dim", "argmax"):
+        s["a"], s["b"] = d, g.b()
+    elif op == "var":
+        s["a"], s["b"], s["c"] = (g.dims(r, min_n=1) if g.b() else d), g.b(), g.pick([0, 1])
+        dd = s["a"] if isinstance(s["a"], list) else [s["a"]]
+        if int(np.prod([h.shape[i] for i in dd])) - s["c"] <= 0:
+            s["c"] = 0
+    elif op in ("cumsum", "softmax", "log_softmax", "squeeze_dim", "cat", "gather0"):
+        s["a"] = d
+    elif op == "flatten":
+        i, j = sorted([g.i(0, r - 1), g.i(0, r - 1)])
+        s["a"], s["b"] = (i - r if g.b() else i), (j - r if g.b() else j)
+    elif op == "unsqueeze":
+        s["a"] = g.i(-(r + 1), r)
+    elif op == "transpose":
+        s["a"], s["b"] = g.dim(r), g.dim(r)
+    elif op == "slice":
+        n = h.shape[d]
+        s["a"] = d
+        if g.b():
+            s["narrow"], s["b"] = True, g.i(1, n)
+        else:
+            s["s"], s["b"], s["st"] = g.pick([0, 1, -1, None]), g.pick([n, -1, None, n + 3]), g.pick([1, 2])
+    elif op in ("select", "chunk", "split", "unbind"):
+        n = h.shape[d]
+        s["a"] = d
+        if op == "chunk":
+            s["b"] = g.i(0, min(1, (n + 1) // 2 - 1) if n > 1 else 0)
+        else:
+            s["b"] = g.i(-n, n - 1) if op == "select" else g.i(0, n - 1)
+    elif op == "flip":
+        s["a"] = g.dims(r, min_n=1)
+    elif op == "roll":
+        s["a"], s["b"] = d, g.pick([1, -1, 2])
+    elif op == "repeat":
+        s["a"] = [g.pick([1, 2]) for _ in range(r + g.i(0, 1))]
+    elif op == "expand":
+        s["a"] = g.pick([1, 2, 3])
+    elif op == "stack":
+        s["a"] = g.i(-(r + 1), r)
+    elif op in ("tril", "triu"):
+        s["a"] = g.pick([0, 1, -1])
+    elif op == "index_select":
+        n = h.shape[d]
+        s["a"], s["b"] = d, [g.i(0, n - 1) for _ in range(g.i(1, 3))]
+    elif op == "linear":
+        s["n"], s["a"] = g.pick([1, 2, 3]), g.b()
+    return s
+
+
+def _module_class():
+    t = T()
+    torch = t.torch
+    if not hasattr(t, "ProgModule"):
+        class ProgModule(torch.nn.Module):
+            def __init__(self, steps, W):
+                super().__init__()
+                self.steps = steps
+                self.W = torch.nn.Parameter(W, requires_grad=False)
+
+            def forward(self, x, y):
+                h = x
+                for s in self.steps:
+                    h = _mstep(s, h, x, y, self.W)
+                return h
+
+        t.ProgModule = ProgModule
+    return t.ProgModule
+
+
+def module_programs(n_steps):
+    from hypothesis import strategies as st
+
+    def build(seed):
+        g = G([seed, n_steps])
+        t = T()
+        shape = g.shape(min_rank=1, max_rank=3, dims=[1, 2, 2, 3, 3, 4, 5], max_numel=60)
+        x = g.tensor(shape, "float32", "smooth")
+        y = g.tensor(shape, "float32", "smooth")
+        W = make_tensor([3, 8], "float32", "smooth", 7)
+        n = n_steps
+        steps, h, exact = [], x, True
+        for _ in range(n):
+            for _attempt in range(4):
+                s = _draw_step(g, h, exact, list(h.shape) == list(x.shape))
+                try:
+                    with t.torch.no_grad():
+                        h2 = _mstep(s, h, x, y, W)
+                except Exception:  # noqa: BLE001  the step does not apply to this shape: draw another
+                    continue
+                if h2.numel() == 0 or h2.numel() > 400 or h2.dtype != t.torch.float32 or not bool(t.torch.isfinite(h2).all()) \
+                        or float(h2.abs().max()) > 1e4:
+                    continue
+                steps.append(s)
+                h = h2
+                exact = exact and (s["op"] in _M_EXACT) and float(h.abs().max()) < 2048
+                break
+        return {"kind": "module", "steps": steps, "x": enc(x), "y": enc(y), "optimize": g.chance(50), "ops": [s["op"] for s in steps]}
+
+    return st.integers(0, 2**62).map(build)
+
+
+def _export_and_compare(case):
+    """Returns (status, kind, detail): status ok | skip:<why> | violation."""
+    t = T()
+    torch = t.torch
+    x, y = dec(case["x"]), dec(case["y"])
+    W = make_tensor([3, 8], "float32", "smooth", 7)
+    m = _module_class()(case["steps"], W).eval()
+    try:
+        with torch.no_grad():
+            exp = m(x, y)
+    except Exception as e:  # noqa: BLE001
+        return "skip:module_eager_fails", None, str(e)[:200]
+    scale, h = 1.0, x
+    with torch.no_grad():
+        for s in case["steps"]:
+            h = _mstep(s, h, x, y, W)
+            if h.dtype.is_floating_point and h.numel():
+                scale = max(scale, float(h.abs().max()))
+    try:
+        ep = torch.export.export(m, (x, y), strict=False)
+    except Exception as e:  # noqa: BLE001   torch.export itself cannot capture the module: not torch_lib's business
+        return "skip:torch_export_capture_fails", None, f"{type(e).__name__}: {str(e)[:200]}"
+    try:
+        prog = torch.onnx.export(ep, (x, y), dynamo=True, optimize=bool(case["optimize"]), verbose=False)
+        model = prog.model_proto
+    except Exception as e:  # noqa: BLE001
+        rc = root_cause(e)
+        txt = f"{type(e).__name__}: {str(e)[:300]} | root: {type(rc).__name__}: {str(rc)[:300]}"
+        if isinstance(rc, NotImplementedError):
+            return "skip:declared_unsupported", None, txt
+        return "violation", "export_raises", txt
+    feeds = {}
+    for inp, a in zip(model.graph.input, (x, y)):
+        feeds[inp.name] = to_numpy(a)
+    if len(model.graph.input) < 2:  # unused inputs are dropped by the exporter
+        names = [i.name for i in model.graph.input]
+        feeds = {n: to_numpy(x if n == "x" else y) for n in names}
+    rt = runtime()
+    mb = model.SerializeToString()
+    try:
+        return _module_compare(rt, mb, feeds, exp, scale)
+    except RuntimeCrash as e:
+        return "skip:runtime_crashed", None, str(e)
+
+
+def _module_compare(rt, mb, feeds, exp, scale):
+    r = rt.run_ort(mb, feeds)
+    expected = [to_numpy(exp)]
+    if r[0] != "ok":
+        if any(mm in r[1] for mm in ORT_MISSING):
+            return "skip:ort_kernel_missing", None, r[1]
+        ref = rt.run_ref(mb, feeds)
+        if ref[0] == "ok" and not compare_outputs(expected, "tensor", ref[1], True, scale, True, "float32"):
+            return "skip:ort_fails_reference_agrees", None, r[1]
+        return "violation", "ort_cannot_run", r[1]
+    v = compare_outputs(expected, "tensor", r[1], True, scale, True, "float32")
+    if v and v[0][0] in ("values", "shape"):
+        ref = rt.run_ref(mb, feeds)
+        if ref[0] == "ok" and not compare_outputs(expected, "tensor", ref[1], True, scale, True, "float32"):
+            return "skip:runtime_split_ort_vs_reference", None, v[0][1]
+    if v:
+        return "violation", v[0][0], v[0][1]
+    return "ok", None, ""
+
+
+def _minimise_module(case, kind):
+    """Drop steps while the same kind of failure persists (at most 10 re-exports)."""
+    steps = list(case["steps"])
+    budget = 10
+    i = len(steps) - 1
+    while i >= 0 and budget > 0 and len(steps) > 1:
+        trial = dict(case, steps=steps[:i] + steps[i + 1:])
+        budget -= 1
+        try:
+            st_, k, _ = _export_and_compare(trial)
+        except Exception:  # noqa: BLE001
+            st_, k = "err", None
+        if st_ == "violation" and k == kind:
+            steps = trial["steps"]
+        i -= 1
+    out = dict(case, steps=steps)
+    out["ops"] = [s["op"] for s in steps]
+    return out
+
+
+def run_modules(col, n, seed):
+    from vf.hyp import drive
+
+    def body(case):
+        if not case["steps"]:
+            col.skip("module_empty")
+            return
+        st_, kind, detail = _export_and_compare(case)
+        if st_.startswith("skip:"):
+            col.skip("module:" + st_[5:])
+            if st_ == "skip:declared_unsupported":
+                col.extra.setdefault("skip_samples", []).append({"module_declared_unsupported": {"ops": case["ops"], "note": detail[:300]}})
+            return
+        classes = ["family:module", "module_steps:%d" % len(case["steps"]), "module_optimize:%s" % case["optimize"]] + ["mstep:" + o for o in sorted(set(case["ops"]))]
+        col.case(("module", sha((case["steps"], case["x"]["s"], case["optimize"]))), len(case["steps"]) >= 2, classes,
+                 sample={"module_steps": case["steps"], "input_shape": case["x"]["s"], "optimize": case["optimize"]})
+        if st_ == "violation":
+            small = _minimise_module(case, kind)
+            st2, kind2, detail2 = _export_and_compare(small)
+            if st2 == "violation" and kind2 == kind:
+                case, detail = small, detail2
+            bucket = "module:%s:%s%s" % (kind, "+".join(case["ops"]), ":optimized" if case["optimize"] else "")
+            col.violation(bucket, f"steps={case['steps']} input_shape={case['x']['s']}  =>  {detail}", case, size=len(case["steps"]))
+
+    for k, n_steps in enumerate((2, 3, 4, 5)):
+        drive(module_programs(n_steps), body, max(2, n // 4), seed + k)
+
+
+def replay_module(case):
+    st_, kind, detail = _export_and_compare(case)
+    if st_ != "violation":
+        return []
+    return [("module:%s:%s%s" % (kind, "+".join(case["ops"]), ":optimized" if case["optimize"] else ""), f"steps={case['steps']}  =>  {detail}")]
